@@ -1,6 +1,6 @@
 /* C01 helpers: foreign operand nodes (dynamic class unknown, __cls == 0) drawn from small pools, so that "same request"
    and "different request" are both reachable; every accessor of a foreign node is an arbitrary function (ext models). */
-static void* zalloc(unsigned long n) { void* p = malloc(n); __CPROVER_assume(p != 0); __builtin_memset(p, 0, n); return p; }
+static void* zalloc(unsigned long n) { return __CPROVER_allocate(n, 1); }      /* fresh zero-initialised object at a constant address */
 #define NEWZ(T) ((T*)zalloc(sizeof(T)))
 typedef struct S_ZTSN3ipr4impl12type_factoryE factory_t;
 typedef struct S_ZTSN3ipr4TypeE type_t;   typedef struct S_ZTSN3ipr4ExprE expr_t;
@@ -11,7 +11,7 @@ static int pick(void) { int i = nondet_int(); __CPROVER_assume(0 <= i && i < NPO
 static factory_t* FAC;
 static void pools(void)
 {
-  FAC = malloc(sizeof *FAC); __CPROVER_assume(FAC != 0);
+  FAC = __CPROVER_allocate(sizeof *FAC, 0);      /* arbitrary contents (any prior state of the tables), constant address */
   for (int i = 0; i < NPOOL; i++) { TY[i] = NEWZ(type_t); EX[i] = NEWZ(expr_t); PR[i] = NEWZ(product_t); SU[i] = NEWZ(sum_t); }
 }
 static type_t* any_type(void) { return TY[pick()]; }
